@@ -1222,6 +1222,33 @@ class _tzicalvtz(_tzinfo):
 
         return compdt
 
+    @_validate_fromutc_inputs
+    def fromutc(self, dt):
+        # Find the observance in force at this instant. The generic
+        # algorithm assumes a fixed standard offset, which a VTIMEZONE
+        # does not promise. Onsets are local times read with the offset
+        # in force before them.
+        utc = dt.replace(tzinfo=None)
+        lastcomp = lastonset = None
+
+        for comp in self._comps:
+            onset = comp.rrule.before(utc + comp.tzoffsetfrom, inc=True)
+
+            if onset is not None:
+                onset -= comp.tzoffsetfrom
+                if lastonset is None or lastonset < onset:
+                    lastcomp, lastonset = comp, onset
+
+        if lastcomp is None:
+            # Before the first onset
+            return dt + self._find_comp(dt).tzoffsetto
+
+        # Second pass through the interval repeated by this onset
+        fold = (lastcomp.tzoffsetdiff < ZERO and
+                utc - lastonset < -lastcomp.tzoffsetdiff)
+
+        return enfold(dt + lastcomp.tzoffsetto, fold=int(fold))
+
     def utcoffset(self, dt):
         if dt is None:
             return None
